@@ -213,7 +213,9 @@ PROBES = [('Probe:aromatic-atom', 'fragment a{aromatic C labeled c1}'),
           ('Probe:nonaromatic-ring-atom', 'fragment a{nonaromatic C labeled c1 {in ring of size >2}}'),
           ('Probe:aromatic-bond', 'fragment a{C labeled c1 C labeled c2 aromatic bond to c1}'),
           ('Probe:ring-double-bond', 'fragment a{ringatom C labeled c1 ringatom C labeled c2 double bond to c1}'),
-          ('Probe:zero-order-bond', 'fragment a{$ labeled c1 $ labeled c2 partial bond to c1}')]
+          ('Probe:zero-order-bond', 'fragment a{$ labeled c1 $ labeled c2 partial bond to c1}'),
+          ('Probe:strong-bond', 'fragment a{C labeled c1 C labeled c2 strong bond to c1}'),
+          ('Probe:any-bond-in-ring', 'fragment a{ringatom C labeled c1 ringatom C labeled c2 any bond to c1}')]
 
 
 def probe_scheme(lib):
